@@ -136,9 +136,11 @@ func (self Loader) LoadMany(items []LoadOneItem) (out []Function) {
 // and returns runnable function pointer
 // WARN: this API is experimental, use it carefully
 func Load(text []byte, funcs []Func, modulename string, filenames []string) (out []Function) {
-	ids := make([]string, len(funcs))
+	// makeModuledata sorts funcs: remember every function's entry offset in the caller's
+	// order. (Names are not unique: distinct Go types may print identically.)
+	entries := make([]uint32, len(funcs))
 	for i, f := range funcs {
-		ids[i] = f.Name
+		entries[i] = f.EntryOff
 	}
 	// generate module data and allocate memory address
 	mod := makeModuledata(modulename, filenames, &funcs, text)
@@ -150,13 +152,9 @@ func Load(text []byte, funcs []Func, modulename string, filenames []string) (out
 	//
 	// encapsulate function address
 	out = make([]Function, len(funcs))
-	for i, s := range ids {
-		for _, f := range funcs {
-			if f.Name == s {
-				m := uintptr(mod.text + uintptr(f.EntryOff))
-				out[i] = Function(&m)
-			}
-		}
+	for i, off := range entries {
+		m := uintptr(mod.text + uintptr(off))
+		out[i] = Function(&m)
 	}
 	return
 }
